@@ -461,4 +461,40 @@ theorem natDigits_chars (n : Nat) : ∀ c ∈ natDigits n, 48 ≤ c.toNat ∧ c.
   subst hcd
   exact digitChar_range d hd
 
+/-! ### updates -/
+
+theorem setField_other (row : RowVals) (j k : Nat) (v : Scalar) (h : k ≠ j) :
+    (setField row j v)[k]? = row[k]? := by
+  induction row generalizing j k with
+  | nil => simp [setField]
+  | cons x t ih =>
+    cases j with
+    | zero =>
+      cases k with
+      | zero => exact absurd rfl h
+      | succ k => simp [setField]
+    | succ j =>
+      cases k with
+      | zero => simp [setField]
+      | succ k => simp only [setField, List.getElem?_cons_succ]; exact ih j k (by omega)
+
+theorem setField_same (row : RowVals) (j : Nat) (v : Scalar) (h : j < row.length) :
+    (setField row j v)[j]? = some (some v) := by
+  induction row generalizing j with
+  | nil => simp at h
+  | cons x t ih =>
+    cases j with
+    | zero => simp [setField]
+    | succ j => simp only [setField, List.getElem?_cons_succ]; exact ih j (by simpa using h)
+
+theorem applyUpdate_other (row : RowVals) (sets : List (Nat × Scalar)) (k : Nat)
+    (h : ∀ p ∈ sets, p.1 ≠ k) : (applyUpdate row sets)[k]? = row[k]? := by
+  induction sets generalizing row with
+  | nil => rfl
+  | cons p rest ih =>
+    obtain ⟨j, v⟩ := p
+    simp only [applyUpdate]
+    rw [ih (setField row j v) (fun q hq => h q (by simp [hq]))]
+    exact setField_other row j k v (fun hk => h (j, v) (by simp) hk.symm)
+
 end Discret.Value
